@@ -95,7 +95,7 @@ def verify(target: str, tier: str = "quick", budget_ms: int = 10000, shard=(0, 1
 
 
 if __name__ == "__main__":
-    sys.path.insert(0, "/verif")
+    sys.path.insert(0, __import__("os").path.dirname(__import__("os").path.dirname(__import__("os").path.abspath(__file__))))
     rep = verify(sys.argv[1], budget_ms=int(__import__("os").environ.get("PYVC_BUDGET_MS", "10000")))
     print(rep.status, rep.error)
     from collections import Counter
